@@ -240,7 +240,7 @@ def run_traces(ctx, n_traces, length, label='TokenizerTrace'):
         meta.append((rseed, stream))
     # bursts: very many complete messages fed before anything is retrieved
     import mido
-    for nmsg in ((1500, 2100) if n_traces < 50 else (1500, 5000, 20000)):
+    for nmsg in ((1500,) if n_traces < 50 else (1500, 5000, 20000)):
         rseed = rng.randrange(1 << 30)
         stream = [0xfa] + [rng.choice([0xf8, 0xf8, 0xfe, 0xf6]) for _ in range(nmsg)] + [0x90, 1, 2, 0xfc]
         p = mido.Parser()
